@@ -183,6 +183,7 @@ class Interp:
         self.dphi_name = params[4] if len(params) > 4 else None
         self.env = {}
         self.fact = {}         # factorisation variable -> Lin of the matrix it was built from
+        self.norm_divs = []    # explicit divisions by the norm of a vector (0/0 where that vector vanishes; v.normalized() returns 0 there)
         self.dphi = None
         self.ret = None
         self.notes = []
@@ -303,8 +304,10 @@ class Interp:
                 return self.mul(a, b)
             if e[1] == "/":
                 if isinstance(b, tuple) and b[0] == "norm" and isinstance(a, Lin) and a.kind == "vec":
+                    self.norm_divs.append(A.show(e)[:70])
                     return NVec(a, b[1])
                 if isinstance(b, tuple) and b[0] == "norm" and isinstance(a, Scal):
+                    self.norm_divs.append(A.show(e)[:70])
                     return Scal(a.num, a.dens + (qform_key(b[1]),))
                 if isinstance(b, tuple) and b[0] == "scalar" and set(b[1]) == {0}:
                     return self.mul(("scalar", {0: 1 / b[1][0]}), a)
@@ -618,6 +621,7 @@ def check(rep, tier, replay=None):
     rep.rule("N1", "factorised matrix is J'J + lambda * diag(d)^2")
     rep.rule("N2", "dx = Hinv (-J'r) on every path (dense and sparse J)")
     rep.rule("N3", "dphi == d/dlambda |D dx(lambda)| in operator normal form")
+    rep.rule("N3z", "dphi is finite (zero) where the step vanishes: no explicit division by the norm of a vector that is linear in r", minimum=1)
     rep.rule("N4", "solve_trust_region: lambda = 1/Delta, returns {solve_linear_ldlt(J,d,r,lambda), lambda}")
     rep.rule("N5", "colwise_norm: sparse branch indexes by the iterator's column, squares, takes the root; dense branch is colwise().norm()", minimum=3)
     if len(fns) != 1:
@@ -670,6 +674,18 @@ def check(rep, tier, replay=None):
             rep.violation(Finding("N3", "solve_linear_ldlt", "dphi (%s)" % lab,
                                   "dphi evaluates %s; the derivative of |D dx(lambda)| is -<D^2 x, Hinv D^2 x> / |D x| = %s"
                                   % (got.show() if isinstance(got, Scal) else got, want.show()), f, l))
+    # N3z: every vector of the algebra is linear in r, so it vanishes for r = 0 (and for r orthogonal to the range of J: dx = 0).  There dphi is 0; v.normalized() returns the
+    # zero vector for v = 0, an explicit division by v.norm() is 0 / 0
+    for lab, v, Ip, node in results:
+        if Ip.dphi is None:
+            continue
+        ok = not Ip.norm_divs
+        rep.instance("N3z", "solve_linear_ldlt", "dphi at dx = 0 (%s)" % lab, ok=ok, sample={"explicit_divisions_by_a_norm": Ip.norm_divs})
+        if not ok:
+            f, l = A.loc(Ip.dphi[1])
+            rep.violation(Finding("N3z", "solve_linear_ldlt", "dphi at dx = 0 (%s)" % lab,
+                                  "`%s` divides by the norm of a vector that is linear in r: for J'r = 0 (r = 0, or r orthogonal to the range of J) the step is zero, the derivative of |D dx| "
+                                  "is 0, and this expression is 0 / 0 = NaN (v.normalized() returns the zero vector there)" % Ip.norm_divs[0], f, l))
     check_n4(rep, d)
     check_n5(rep, d)
 
